@@ -9,9 +9,10 @@ from props import _fg_common as fc
 ID = "C05"
 PROPS = "Props/C05.v"
 USES_GEN = ["fgdefault", "tables"]
-MODEL_FILES = fc.MODEL_FILES + ["Spec/FGSpec.v", "Spec/QuerySpec.v", "Proofs/FGDefaultTree.v"]
-IMPORTS = fc.IMPORTS[:-1] + " Spec.FGSpec Spec.QuerySpec Proofs.FGDefaultTree."
-CHECKS = ["agree", "spec"]
+MODEL_FILES = fc.MODEL_FILES + ["Spec/FGSpec.v", "Spec/QuerySpec.v", "Proofs/FGDefaultTree.v", "Proofs/DescendantWitness.v"]
+IMPORTS = fc.IMPORTS[:-1] + " Spec.FGSpec Spec.QuerySpec Proofs.FGDefaultTree Proofs.DescendantWitness."
+CHECKS = ["agree", "spec", "descendant", "descendant_unattributed"]
+KF_CLASS = "partial-group-atoms-descendant"
 CHUNK = 20
 CORRESPONDENCE = ("Model.Query.{is_functional_group,find_best_node_rec,worklist,get_functional_groups_with,get,query} with "
                   "Model.FGTree (tree), Model.Hydrogens.add_implicit_hydrogens, Model.Match.map_subgraph ~ "
@@ -22,7 +23,10 @@ RULE = ("random molecules glued from 73 FG-rich fragments (carbonyls, esters, am
         "with lower-case atoms), 1-14 heavy atoms, single/double attachment bonds, occasional extra ring bond or disconnected part, "
         "hydrogens written explicitly on none / some / all atoms; node ids contiguous / offset / sparse / negative / shuffled "
         "insertion order (the D16 situation); configuration = the default list (70%) or a generated list of 3-8 patterns with random "
-        "group_atoms and anti-patterns (30%); require_implicit_hydrogen both ways. non-trivial = at least one group reported; "
+        "group_atoms and anti-patterns (25%), or (5%) one of four small configurations inside the input class of the known finding KF-C05-descendant; "
+        "require_implicit_hydrogen both ways. Checks: 'spec' = every clause with 'no CHILD witnessed' (must hold for every configuration), 'descendant' = the full "
+        "statement 'no DESCENDANT witnessed' (run on every case, generated configurations included), 'descendant_unattributed' = a descendant failure "
+        "that the kernel cannot attribute to KF-C05-descendant (configuration outside kf_descendant_classb, or model != implementation): always a violation. non-trivial = at least one group reported; "
         "distinct = distinct (molecule incl. ids and dict orders, configuration, flag)")
 TRUSTED = ["the parser: pattern / anti-pattern graphs are produced by the real fgutils parser and handed to the model as data",
            "Model/Match.v + Model/Permute.v (sub-graph matcher; C03/C04/C08) and Model/Hydrogens.v + Gen/Tables.v (C12) are other properties' models; "
@@ -33,15 +37,34 @@ ASSUMPTIONS = ["the molecule is a networkx.Graph built through the networkx API 
                "the mapper is the default PermutationMapper(wildcard='R', ignore_case=True); configurations are lists of FGConfig objects with distinct names"]
 
 
-def gen_case(rng, default_p=0.7):
+# configurations inside the class of the known finding KF-C05-descendant (kept in the stream so that the
+# finding stays visible and its attribution is exercised)
+KF_FAMILIES = [
+    [{"name": "carbonyl", "pattern": "C=O"}, {"name": "acyl", "pattern": "RC=O", "group_atoms": [1]},
+     {"name": "ketone", "pattern": "RC(R)=O", "group_atoms": [1, 3]}],
+    [{"name": "oxygen", "pattern": "O"}, {"name": "hydroxy", "pattern": "CO"}, {"name": "acid", "pattern": "C(=O)O"}],
+    [{"name": "carbonyl", "pattern": "C=O"}, {"name": "acidC", "pattern": "RC(=O)O", "group_atoms": [1]},
+     {"name": "ester", "pattern": "RC(=O)OC", "group_atoms": [1, 2, 3]}],
+    [{"name": "ether", "pattern": "ROR", "group_atoms": [1]}, {"name": "alkoxyC", "pattern": "ROC", "group_atoms": [2]},
+     {"name": "acetal", "pattern": "ROCOR", "group_atoms": [1, 2, 3]}],
+]
+
+
+def gen_case(rng, default_p=0.7, kf_p=0.05):
     g, hmode = fc.rand_molecule(rng)
     g, scheme, _ = gens.reid(rng, g)
-    if rng.random() < default_p:
+    kind = "random"
+    r = rng.random()
+    if r < kf_p:
+        specs = [dict(s) for s in rng.choice(KF_FAMILIES)]
+        rng.shuffle(specs)
+        kind = "kf-family"
+    elif r < kf_p + default_p:
         specs = None
     else:
         specs = fc.rand_config_list(rng, anti_list_p=0.4, ga_p=0.6)
     req_h = rng.random() < 0.6
-    return {"graph": g, "specs": specs, "req_h": req_h, "scheme": scheme, "hmode": hmode, "kind": "random"}
+    return {"graph": g, "specs": specs, "req_h": req_h, "scheme": scheme, "hmode": hmode, "kind": kind}
 
 
 def generate(seed, tier, ncases=None):
@@ -126,18 +149,56 @@ def model_expr(c):
 
 def coq_case(c, out):
     defs = {"g": ct.graph(c["graph"]), "out": fc.answer_term(out)}
+    rq = ct.b(c["req_h"])
     if c["specs"] is None:
         # default configuration: the tree is the kernel-computed constant default_tree_val
-        # (Proofs/FGDefaultTree.v: default_tree_ok, default_query_fast_ok) and the full descendant clause is checked
-        spec = "C05_tree_okb true default_mapper (Good default_tree_val) %s $g $out" % ct.b(c["req_h"])
+        # (Proofs/FGDefaultTree.v: default_tree_ok, default_query_fast_ok)
+        rt = "(Good default_tree_val)"
     else:
         defs["cfgs"] = fc.cfgs_term(c["specs"])
-        # generated configurations carry arbitrary group_atoms: only the clause the descent guarantees for
-        # every configuration (no CHILD witnessed) is demanded
-        spec = "C05_child_okb default_mapper $cfgs %s $g $out" % ct.b(c["req_h"])
+        rt = "(build_config_tree_from_list default_mapper $cfgs)"
+    agree = "answer_agreeb (%s) $out" % model_expr(c)
     return {"defs": defs,
-            "checks": {"agree": "answer_agreeb (%s) $out" % model_expr(c), "spec": spec},
+            "checks": {
+                "agree": agree,
+                # every clause of the property with "no CHILD witnessed" (what the descent guarantees)
+                "spec": "C05_tree_okb false default_mapper %s %s $g $out" % (rt, rq),
+                # the FULL statement: no DESCENDANT witnessed
+                "descendant": "C05_tree_okb true default_mapper %s %s $g $out" % (rt, rq),
+                # a failing descendant clause that is NOT attributable to KF-C05-descendant: the configuration is
+                # outside the class (kf_descendant_classb, decided by the kernel) or the model disagrees
+                "descendant_unattributed": "C05_desc_attrib_okb default_mapper %s %s $g $out (%s)" % (rt, rq, agree)},
             "diag": [model_expr(c)]}
+
+
+def known_class(c, out, which=None):
+    """attribute a rejected output to KF-C05-descendant exactly when the ONLY failing clause is the descendant
+    clause: "spec" (all other clauses) passed and "descendant_unattributed" passed, i.e. the kernel found the
+    configuration inside the class and the model's answer equal to the implementation's"""
+    if which is not None and list(which) == ["descendant"]:
+        return KF_CLASS
+    return None
+
+
+WITNESS_SPECS = KF_FAMILIES[0]
+
+
+def known_witness_fails(entry):
+    """True while the recorded witness (carbonyl / acyl / ketone, acetone, no implicit hydrogens) still violates the
+    descendant clause on the implementation: decided by the checker C05_okb evaluated in Coq on the output"""
+    if entry.get("class") != KF_CLASS:
+        return False
+    from fgutils.parse import parse
+    out = fc.run_query(WITNESS_SPECS, False, parse("CC(=O)C"), repeats=1)[0]
+    try:
+        term = fc.answer_term(out)
+    except ct.Unrepresentable:
+        return False
+    rc, log = lib.coq_eval("C05kf", IMPORTS, {"out": term},
+                           ["(C05_child_okb default_mapper wit_cfgs false acetone $out, "
+                            "C05_okb default_mapper wit_cfgs false acetone $out)"])
+    flat = " ".join(log.split())
+    return rc == 0 and "= (true, false)" in flat
 
 
 def describe(c):
@@ -167,7 +228,7 @@ def nontrivial(c, out):
 
 def classes(c, out):
     g = c["graph"]
-    yield "config=" + ("default" if c["specs"] is None else "generated")
+    yield "config=" + ("default" if c["specs"] is None else "kf-family" if c["kind"] in ("kf-family", "corpus-descendant") else "generated")
     yield "req_h=%s" % c["req_h"]
     yield "scheme=" + c["scheme"]
     yield "explicit_h=" + c["hmode"]
